@@ -20,7 +20,7 @@ pub(crate) fn decode(entity: &str) -> Option<Cow<'static, str>> {
     if &entity[(len - 1)..] != ";" {
         return None;
     }
-    if len > 4 && &entity[1..=2] == "#x" {
+    if len > 4 && (&entity[1..=2] == "#x" || &entity[1..=2] == "#X") {
         let hex_str = &entity[3..(len - 1)];
         if let Ok(hex) = u32::from_str_radix(hex_str, 16) {
             if let Some(c) = char::from_u32(hex) {
